@@ -105,7 +105,12 @@ impl Swap {
     }
 }
 
+/// `log::max_level()` and the library's reconfiguration lock exist once per process: controlled executions
+/// that reconfigure run one at a time (two baton schedulers must not meet on one lock)
+static FACADE: Mutex<()> = Mutex::new(());
+
 fn swap_exec(h: &Swap, prefix: &[usize]) -> (sched::Execution, Result<String, (String, String)>) {
+    let _facade = FACADE.lock().unwrap_or_else(|e| e.into_inner());
     let log: EvLog = Arc::new(Mutex::new(vec![]));
     let hlog = log.clone();
     let logger = Arc::new(log4rs::Logger::new_with_err_handler(
@@ -150,6 +155,21 @@ fn swap_exec(h: &Swap, prefix: &[usize]) -> (sched::Execution, Result<String, (S
     }
     if ex.aborted.is_some() {
         return (ex, Ok("aborted".into()));
+    }
+    // reconfiguring threads racing each other: whichever configuration ends up installed, the facade's global
+    // maximum must be that configuration's maximum (otherwise records it admits are discarded before they arrive)
+    if h.setters.len() >= 2 {
+        let installed = logger.max_log_level();
+        let facade = log::max_level();
+        if facade != installed {
+            return (
+                ex,
+                Err((
+                    "swap:facade-max-level-differs-from-installed-configuration".into(),
+                    format!("after all reconfigurations returned the installed configuration's maximum level is {} but log::max_level() is {}", installed, facade),
+                )),
+            );
+        }
     }
     let evs = log.lock().unwrap().clone();
     let pos = |e: &Ev| evs.iter().position(|x| x == e);
